@@ -372,4 +372,18 @@ theorem unrepaired_witness :
     projectUnrepaired exCfg (exObj 1 0) = projectUnrepaired exCfg (exObj 2 0)
     ∧ project exCfg (exObj 1 0) ≠ project exCfg (exObj 2 0) := by decide
 
+
+/-- Scoping witness (the excluded point of the hypotheses `applyFilter … = some e` above, run on the
+real code by the harness as well): when the jq filter *fails* on the delivered state, the whole
+change is dropped — here a Deleted of a cached object emits nothing although Deleted is listed, and
+the object stays in the cache. The property text does not say what a failing filter means; this is
+recorded as a scoping note / candidate finding in notes/C08.md. -/
+theorem filter_error_drops_change :
+    let cfg : Cfg := { types := [.deleted], filter := some (.path ["spec", "replicas", "x"]), keep := true }
+    let good : J := .obj [("spec", .obj [])]
+    let bad : J := .obj [("spec", .obj [("replicas", .num 1)])]
+    let cache := (handle cfg id [] .added 1 good).1
+    (handle cfg id cache .deleted 1 bad).2.isSome = false ∧
+    (aget 1 (handle cfg id cache .deleted 1 bad).1).isSome = true := by decide
+
 end ShellOp.Trigger.C08
